@@ -323,20 +323,16 @@ class ArMember(object):
             if self.__fname is None:
                 raise ValueError("Cannot have both fp and fname undefined")
             self.__fp = open(self.__fname, "rb")  # pylint: disable = consider-using-with
+        if self.__cur >= self.__end or self.__cur < self.__offset:
+            return b''
         self.__fp.seek(self.__cur)
 
-        if size is not None:
-            buf = self.__fp.readline(size)
-            self.__cur = self.__fp.tell()
-            if self.__cur > self.__end:
-                return b''
-
-            return buf
-
-        buf = self.__fp.readline()
+        # never read past the end of this member's data
+        remaining = self.__end - self.__cur
+        if size is None or size < 0 or size > remaining:
+            size = remaining
+        buf = self.__fp.readline(size)
         self.__cur = self.__fp.tell()
-        if self.__cur > self.__end:
-            return b''
         return buf
 
     def readlines(self, sizehint=0):
